@@ -65,7 +65,7 @@ def run(tier):
         if e["start"] not in g.min_height():
             continue
         tn = {x: i for i, x in enumerate(e["t"]["tnames"])}
-        for w in lrcheck.short_strings(g, 3 if tier == "quick" else 5, cap=(160 if tier == "quick" else 4000)):
+        for w in lrcheck.short_strings(g, 3 if tier == "quick" else 4, cap=(160 if tier == "quick" else 700)):
             items, pos = [], 1
             for i, wd in enumerate(w):
                 items.append(("k", tn['"%s"' % wd], i + 1, pos, pos + 1)); pos += 2
@@ -144,7 +144,7 @@ def run(tier):
            "trusted_base": vlib.TRUSTED_COMMON + ["tools/lrtab.py", "harness/src/bin/drv.rs", "tools/gram.py Earley oracle (judge only)"],
            "theorems": names, "certificates": {"checked": cobl, "valid": cdis},
            "evaluations": len(cases) + len(cases2), "distinct_nontrivial": distinct,
-           "rule": "recovery corpus grammars x all token strings up to length 3 (quick) / 5 (thorough): every expected list in the result (final error, error nodes) vs the model, no duplicates, never the error terminal; and, without recovery, as C04 (rejected inputs incl. unknown tokens); non-trivial = an error with a non-empty expected list, distinct by (table, terminal string)",
+           "rule": "recovery corpus grammars x all token strings up to length 3 (quick) / 4 (thorough): every expected list in the result (final error, error nodes) vs the model, no duplicates, never the error terminal; and, without recovery, as C04 (rejected inputs incl. unknown tokens); non-trivial = an error with a non-empty expected list, distinct by (table, terminal string)",
            "distribution": {"errors_with_expected": len(errs), "tables": len(c.ok), "recovery_tables": len(c2.ok), "recovery_inputs": len(cases2), "recursive_ascent": asc,
                             "expected_sizes": {str(k): sum(1 for _, d in errs if len(d["err"]["expected"]) == k) for k in range(0, 8)}},
            "samples": [dict(lrcheck.case_desc(c, x), implementation=d) for x, d in errs[:2]]}
